@@ -343,9 +343,13 @@ func (s *Session) ValidatePaths(h Harness, rep *Report, max int) (*ValidationRes
 		res.Checked++
 		p := sums[i]
 		m := comparePath(p, o)
-		// a path with map-order decisions cannot be steered natively (Go
-		// picks the order): re-run it a few times before calling it a mismatch
-		for try := 0; m != "" && p.MapOrders > 0 && try < 12; try++ {
+		// The native run picks Go's map iteration order at random, the engine
+		// used insertion order (or, with map-order decisions, an order the
+		// native run cannot be steered into): where the code under test ranges
+		// over a map, which API call a fault hits - and so the path - can
+		// differ from run to run. A mismatch is reported only if no re-run
+		// matches either; an engine flaw never matches.
+		for try := 0; m != "" && try < 12; try++ {
 			again, err := s.RunNative(h.Pkg, cases[i:i+1], dir)
 			if err != nil || len(again) != 1 {
 				break
